@@ -47,6 +47,14 @@ class C19(Prop):
         if rng.random() < 0.12:
             case['useed'] = rng.randrange(1 << 30)
         case['again'] = rng.random() < 0.25
+        if rng.random() < 0.12:
+            # an interface-aware semantics with a random io assignment on both monitors; data on and around the
+            # thresholds of the predicates
+            from rtverif.props.c06 import SEMS
+            case['ia'] = [rng.choice(SEMS[1:]), dict((k, rng.choice(['input', 'output'])) for k in names)]
+            cs = sorted(set(g[2] for g in lang.walk(f) if g[0] == 'const'))[:3] or [1.0]
+            alpha = sorted(set(cs + [c + 1 for c in cs] + [c - 1 for c in cs]))
+            case['data'] = dict((k, [rng.choice(alpha) for _ in range(n)]) for k in names)
         return case
 
     def judge(self, case):
@@ -62,8 +70,14 @@ class C19(Prop):
             import random
             text = lang.unit_text(fs, random.Random(case['useed']))      # same durations, unit-suffix notation
             v.info['class:unit-suffixes'] = 1
+        iasd, hook = {}, None
+        if case.get('ia'):
+            from rtverif.props.c06 import hook_discrete
+            iasd = {'semantics': case['ia'][0], 'io': case['ia'][1]}
+            hook = hook_discrete(*case['ia'])
+            v.info['class:interface-aware'] = 1
         try:
-            exp = refd.evaluate(f, data, n)
+            exp = refd.evaluate(f, data, n, pred_hook=hook)
         except refd.Undefined:
             v.skip = 'reference undefined (domain error)'
             return v
@@ -72,7 +86,7 @@ class C19(Prop):
         v.info['period:' + case['period']] = 1
         sig = dict((k, [(P * i, data[k][i]) for i in range(n)]) for k in names)
         try:
-            md = drive.Mon('ct', {'text': text, 'vars': list(names)})
+            md = drive.Mon('ct', dict({'text': text, 'vars': list(names)}, **iasd))
             dense = md.evaluate(*drive.ct_args(sig, names))
             if case.get('again'):
                 # the requirement-set loop: another dense-time specification is evaluated in between, then this one
@@ -91,7 +105,7 @@ class C19(Prop):
             return v
         try:
             disc = drive.values(drive.dt_offline(text, names, data, n, times=[float(P * i) for i in range(n)],
-                                                 sd={'period': sp}))
+                                                 sd=dict({'period': sp}, **iasd)))
         except Exception as e:
             v.bad('discrete-raises:' + type(e).__name__, '%s period=%s: discrete evaluate raised %s: %s' % (
                 text, case['period'], type(e).__name__, e))
